@@ -17,6 +17,8 @@ func c18query(id uint16, name string) []byte {
 	m.ID = id
 	m.SetQuery()
 	m.AddQuestion(name, TypeA, ClassIN)
+	// an additional record whose RDATA identifies the request (the echo handler copies it into its answer)
+	m.Additional = append(m.Additional, ResourceRecord{Name: name, Type: TypeA, Class: ClassIN, TTL: 1, RDLength: 4, RData: []byte{name[0], name[1], name[2], name[3]}})
 	raw, _ := m.Encode()
 	return raw
 }
@@ -42,6 +44,9 @@ func H_C18_llmnr_server_isolation() {
 		r := CreateResponseFromMessage(m)
 		for _, q := range m.Questions {
 			r.AddQuestion(q.Name, q.Type, q.Class)
+		}
+		for _, rr := range m.Additional {
+			r.AddAnswer(ResourceRecord{Name: rr.Name, Type: rr.Type, Class: rr.Class, TTL: rr.TTL, RDLength: rr.RDLength, RData: rr.RData})
 		}
 		w.WriteMessage(r)
 		return false
@@ -78,17 +83,19 @@ func H_C18_llmnr_server_isolation() {
 			vCheck(!seen[k], "llmnr/server/one-response-per-request")
 			seen[k] = true
 			vCheck(vStrEq(r.Questions[0].Name, names[k]), "llmnr/server/response-answers-the-request-with-its-id")
+			vCheck(len(r.Answers) == 1 && len(r.Answers[0].RData) == 4 && r.Answers[0].RData[0] == names[k][0], "llmnr/server/handler-saw-the-record-bytes-of-its-own-request")
 		}
 	}
 	s.Close()
 	vCover("end")
 }
 
-func c18response(id uint16) []byte {
+func c18response(id uint16, addr byte) []byte {
 	m := NewMessage()
 	m.ID = id
 	m.SetResponse()
 	m.AddQuestion("alpha", TypeA, ClassIN)
+	m.AddAnswer(ResourceRecord{Name: "alpha", Type: TypeA, Class: ClassIN, TTL: 30, RDLength: 4, RData: []byte{10, 0, 0, addr}})
 	raw, _ := m.Encode()
 	return raw
 }
@@ -109,22 +116,25 @@ func H_C18_llmnr_client_matching() {
 	c.Queries.Store(idA, chA)
 	c.Queries.Store(idB, chB)
 	to := conn.LocalAddr().(*net.UDPAddr)
-	peer.WriteToUDP(c18response(idA), to)
-	peer.WriteToUDP(c18response(idA), to) // a second host answers the same multicast query
-	peer.WriteToUDP(c18response(idX), to) // nobody asked
+	peer.WriteToUDP(c18response(idA, 1), to)
+	peer.WriteToUDP(c18response(idA, 2), to) // a second host answers the same multicast query
+	peer.WriteToUDP(c18response(idX, 3), to) // nobody asked
 	peer.WriteToUDP(c18query(idB, "bravo"), to)
-	peer.WriteToUDP(c18response(idB), to)
+	peer.WriteToUDP(c18response(idB, 4), to)
 	go c.readLoop()
 	time.Sleep(300 * time.Millisecond)
 	select {
 	case m := <-chA:
 		vCheck(m != nil && m.ID == idA, "llmnr/client/query-A-gets-the-response-with-its-id")
+		// the message handed over keeps its own answer although the read loop has since received four more datagrams
+		vCheck(m != nil && len(m.Answers) == 1 && len(m.Answers[0].RData) == 4 && m.Answers[0].RData[3] == 1, "llmnr/client/delivered-response-keeps-its-own-answer-bytes")
 	default:
 		vCheck(false, "llmnr/client/query-A-gets-a-response")
 	}
 	select {
 	case m := <-chB:
 		vCheck(m != nil && m.ID == idB && m.IsResponse(), "llmnr/client/query-B-gets-the-response-with-its-id")
+		vCheck(m != nil && len(m.Answers) == 1 && len(m.Answers[0].RData) == 4 && m.Answers[0].RData[3] == 4, "llmnr/client/query-B-gets-its-own-answer-bytes")
 	default:
 		vCheck(false, "llmnr/client/query-B-gets-a-response-although-A-was-answered-twice")
 	}
